@@ -276,13 +276,80 @@ fn cmd_prefixfind(arg: &str) -> String {
 /// Run the real `any` binary (path in VERIF_ANY_BIN) on a query and reduce its
 /// stdout to items: `L<hex line>` for a result line, `D<kind>:<line>:<col>` for a diagnostic.
 fn cmd_cli(query: &str, exact: bool) -> String {
+    cmd_cli_args(query, exact, false)
+}
+
+/// The description block `any --describe` must print for a query, composed independently from
+/// the LIBRARY's descriptions and the database's source records: one line per looked-up
+/// constant, `"<phrase>" => <description>` followed by ` (<source>) <<url>>` when the constant
+/// has a source with a URL, `(<source>)` when it has one without, nothing when it has none.
+fn cmd_libdesc(db: &Db, src: &str) -> String {
+    let parsed = match anything::parse(src) {
+        Ok(p) => p,
+        Err(e) => return format!("E TREEERR {:?}", e.to_string()),
+    };
+    let mut descriptions = Vec::new();
+    for _ in anything::query(&parsed, db, anything::Options::default().describe(), &mut descriptions) {}
+    let mut lines = Vec::new();
+    for d in descriptions {
+        match d {
+            anything::Description::Constant(q, c) => {
+                let mut l = format!("{:?} => {}", q, c.description);
+                if let Some(s) = c.source.and_then(|id| db.get_source(id)) {
+                    match &s.url {
+                        Some(url) => l.push_str(&format!(" ({}) <{}>", s.description, url)),
+                        None => l.push_str(&format!("({})", s.description)),
+                    }
+                }
+                lines.push(hex_encode(l.as_bytes()));
+            }
+        }
+    }
+    format!("E {}", if lines.is_empty() { "-".to_string() } else { lines.join("|") })
+}
+
+/// What `any --describe <query>` prints after the header of its description block.
+fn cmd_clidesc(query: &str) -> String {
+    let bin = std::env::var("VERIF_ANY_BIN").expect("VERIF_ANY_BIN");
+    let xdg = std::env::var("VERIF_XDG").expect("VERIF_XDG");
+    let mut cmd = std::process::Command::new(bin);
+    cmd.arg("--describe").arg("--").arg(query);
+    cmd.env("XDG_DATA_HOME", &xdg).env("HOME", &xdg).env("NO_COLOR", "1").env("TERM", "dumb");
+    cmd.env_remove("RUST_LOG");
+    let out = match cmd.output() {
+        Ok(o) => o,
+        Err(e) => return format!("E SPAWNERR {}", e),
+    };
+    let stdout = String::from_utf8_lossy(&out.stdout).to_string();
+    let mut lines = Vec::new();
+    let mut inside = false;
+    for l in stdout.split('\n') {
+        if l.starts_with("# Description of constants used") {
+            inside = true;
+        } else if inside && !l.is_empty() {
+            lines.push(hex_encode(l.as_bytes()));
+        }
+    }
+    format!("E {}", if lines.is_empty() { "-".to_string() } else { lines.join("|") })
+}
+
+/// `split`: the query is handed over as several arguments (split at single spaces), the way a
+/// shell passes `any 2 m + 3 m`; the program joins them again.
+fn cmd_cli_args(query: &str, exact: bool, split: bool) -> String {
     let bin = std::env::var("VERIF_ANY_BIN").expect("VERIF_ANY_BIN");
     let xdg = std::env::var("VERIF_XDG").expect("VERIF_XDG");
     let mut cmd = std::process::Command::new(bin);
     if exact {
         cmd.arg("--exact");
     }
-    cmd.arg("--").arg(query);
+    cmd.arg("--");
+    if split {
+        for w in query.split(' ') {
+            cmd.arg(w);
+        }
+    } else {
+        cmd.arg(query);
+    }
     cmd.env("XDG_DATA_HOME", &xdg).env("HOME", &xdg).env("NO_COLOR", "1").env("TERM", "dumb");
     cmd.env_remove("RUST_LOG");
     let out = match cmd.output() {
@@ -358,6 +425,14 @@ fn dispatch(db: &mut Option<Db>, line: &str) -> String {
         "cbor" => cbor::cmd_cbor(&parts[1..]),
         "db" => "DB".to_string(),
         "cli" => cmd_cli(&arg(1), parts.get(2).copied() == Some("exact")),
+        "clisplit" => cmd_cli_args(&arg(1), parts.get(2).copied() == Some("exact"), true),
+        "clidesc" => cmd_clidesc(&arg(1)),
+        "libdesc" => {
+            if db.is_none() {
+                *db = Some(dbx::open_memory());
+            }
+            cmd_libdesc(db.as_ref().unwrap(), &arg(1))
+        }
         _ => format!("? unknown command {}", cmd),
     }
 }
